@@ -77,6 +77,14 @@ var (
 		d: "872a9cb9789d29ec7890e2a3b3857358e53d50148def0505dacc179dd5f7176ac76b0e9fc2c5784f53cef45e6cefbbe8ecb6fe31c29f06ccbb14380cd1c579403a906dc34b82bd54d8c251b64ba6cfeaec77cb5f611b2dbf318fbf2eee9ffd3a60d85a47f491a4588d4d5c7d4f20323a1efaee1314c4b31a9b7ec1919a1c148f6760a104e881f6201c5c0e1b6ff6ff9a2694bdf4147a3fbe8dee6536e96d0435a8599af74c1bffd7ece0bbb34b0eeb8d646fd6c82f91a351e1e55d300ccb1b5071a536b2d8d566d7a0ca6efbabbc2546668d6c769de0ff18b455787109201c1e9a416655718ac1ed692efa7586201689724d68cbd78ec7a107de16a88f473cab"}
 )
 
+// A VALID 2048-bit key (e = 65537) whose primes have unequal byte lengths (p 1000 bits, q 1048 bits): legal for
+// tink and crypto/rsa, never produced by rsa.GenerateKey. Not weak: it must be accepted, usable and exportable.
+var rsa2048unbalanced = rsaFixed{
+	n: "b2a296ab72f61fb2e2cf3c7fa9c69698bd229043e85612af3c5ff9fb6ebb6785a86ccebf5a20775bf92baa0e331d1ab7e3388d7e6ae640fcabe139e5a80ee3d5a2cd4a9ebbb6ff62a793dd12ade586523be434df3a47f89465885571099ed1e89122cc22eaf26376427a4198d3663cc4c0f16fd83c45c6a6b658ad0fc21a3cea0acc6ef1d06a7cfa732708c67c8b526d64aa48acb6b76b2562898f2d86cd13d225628203ce15fd97cb62da2a48d942c12f006a03dd2def93889b4b3bc30621760f14caf8c6f69ac0eebc3bf797c297b16bc2de5e43cd5be5cf9e08ba99809bc3e14461fc855b9f4106b6d9eea5959025b9655ba831e86c3e47b06ef4487b121d",
+	p: "c81810530e265cb7c534c841f946cb0fa38637cdd7a6514fe1f27b3e83f336756399e10b312f1ac61d753eaf04ad06242137618821e21fd440985209938ec8b113ee8cd07b850cc4a931f748ce08beda1486b8cf8a09ab7152c519cd01a9c5791f0846d65989741c50efbc84fb59354d7653c373533b286040a8075017",
+	q: "e48ba7af2bb58992e1551f034bfea0d95ee97da34195e63f056df45c55ef7dbfe293c96b8d3ffa319a32da69526ed01b826379565534a1fef3019b66a49120d2612b8c39763b94e9d52a68025cae5839db5b93e32b58c6cec49950e62a32de32bee9b1b9034bf2a841c29707c784eb775be9a2fb900f4efa6684dba1a046dcec72fbeb",
+	d: "a4146dbabb94d116f9f80a84e4c7f12a088807e528326f65205ab3fe3bfecd1edace5eb52aaea994047213f8890091bb186da8a1d6c4fa2a5c223b90f3e6016608ecf23e8d0390dee8380c170d3dc73c1fa104e389dff3b732efa0337cf7b1ad222ac940c577b0de3e3f97a32d823a0d2b805910508472ec4c8f751f048431f656bd70f84093153c1ee675f9f74becf1f73c764d316adeb5043a96bce404f1346950117fe6e28750daba01759d4f327d7048656972183bcf28c2564c51569198c9e5c616bb792ec22a16c35a428f5b78c9609661644e715aaaa4a19c3dad3edd00a0c0487f05fa45cb334ca784786164c08ba98e744c4ac4a298955963eb560d"}
+
 func hexInt(s string) *big.Int {
 	v, ok := new(big.Int).SetString(s, 16)
 	if !ok {
@@ -126,6 +134,8 @@ var weakNames = []string{
 	"ecdsa-p384-sha256-pub", "ecdsa-p384-sha256-priv", "ecdsa-p521-sha256-pub", "ecdsa-p521-sha384-priv",
 	"sgcmhkdf-derived24", "sctrhmac-derived24", "sctrhmac-tag8",
 	"deriver-hkdf16",
+	// exotic but VALID keys (rule ""): accepted handles built from them must behave (no panic in any accessor or export)
+	"rsapkcs1-priv-unbalanced", "rsapss-priv-unbalanced",
 }
 
 // weak builds the named weak key. Key bytes come from the run's RNG stream.
@@ -190,9 +200,11 @@ func (w *world) weak(name string) weakKey {
 		n := map[string]int{"hkdfprf-key16": 16, "hkdfprf-key31": 31}[name]
 		k.rule, k.class, k.sibling = ruleHKDFKey, "prf", "prf/hkdfprf/k32-SHA256-nosalt/NONE"
 		k.data = sym("HkdfPrfKey", &hkdfprfpb.HkdfPrfKey{Params: &hkdfprfpb.HkdfPrfParams{Hash: commonpb.HashType_SHA256}, KeyValue: rnd(n)})
-	case "rsapkcs1-pub-n1024", "rsapkcs1-pub-e3", "rsapkcs1-pub-e65539", "rsapkcs1-priv-n1024", "rsapkcs1-priv-e3":
+	case "rsapkcs1-pub-n1024", "rsapkcs1-pub-e3", "rsapkcs1-pub-e65539", "rsapkcs1-priv-n1024", "rsapkcs1-priv-e3", "rsapkcs1-priv-unbalanced":
 		var r rsaParts
 		switch name {
+		case "rsapkcs1-priv-unbalanced":
+			r, k.rule = rsa2048unbalanced.parts(65537), ""
 		case "rsapkcs1-pub-n1024", "rsapkcs1-priv-n1024":
 			r, k.rule = rsa1024.parts(65537), ruleRSAMod
 		case "rsapkcs1-pub-e65539":
@@ -208,9 +220,11 @@ func (w *world) weak(name string) weakKey {
 			k.data = priv("RsaSsaPkcs1PrivateKey", &rsapkcs1pb.RsaSsaPkcs1PrivateKey{PublicKey: pk, D: r.d, P: r.p, Q: r.q, Dp: r.dp, Dq: r.dq, Crt: r.crt})
 			k.sibling = "signature/ed25519/k32/TINK"
 		}
-	case "rsapss-pub-n1024", "rsapss-pub-e3", "rsapss-priv-n1024", "rsapss-priv-e65539":
+	case "rsapss-pub-n1024", "rsapss-pub-e3", "rsapss-priv-n1024", "rsapss-priv-e65539", "rsapss-priv-unbalanced":
 		var r rsaParts
 		switch name {
+		case "rsapss-priv-unbalanced":
+			r, k.rule = rsa2048unbalanced.parts(65537), ""
 		case "rsapss-pub-n1024", "rsapss-priv-n1024":
 			r, k.rule = rsa1024.parts(65537), ruleRSAMod
 		case "rsapss-priv-e65539":
